@@ -139,6 +139,16 @@ def gen_scenario(rng):
         sc["final"] = {"at": rng.choice([0.5, 3.0, 8.0, 15.0, 25.0]), "do": do}
     else:
         sc["final"] = {"point": rng.choice(repeating.POINTS), "nth": rng.randint(1, 4), "do": do}
+    if rng.random() < 0.15:
+        # the producers' LAST output and their finished-notification land inside the window in which the observer's
+        # task is being created / has just been created (the reference date of "new output since my last launch"
+        # is taken around there), with few retries so that no later fallback execution masks a skipped one
+        sc.update({"check_output": True, "producer_repeat": True, "retries": rng.choice([0, 0, 1, 2]), "kill_delay": None,
+                   "obs_script": [{"reason": "Success", "duration": rng.choice([0.5, 1.0])} for _ in range(6)],
+                   "obs_tail": {"reason": "Success", "duration": 1.0},
+                   "final": {"point": rng.choice(["factory", "factory", "wait.exit", "outputSince.exit", "canConsume.exit"]),
+                             "nth": rng.randint(1, 3), "do": ["output", "notify"]}})
+        sc["first_output"] = {"at": 0.3}
     if rng.random() < 0.3:
         sc["extra_outputs"] = [{"at": rng.choice([2.0, 6.0, 11.0])} for _ in range(rng.randint(1, 2))]
     if rng.random() < 0.1:
